@@ -183,7 +183,10 @@ func numSize
 -- error otherwise, not an input error)
 func Deserializer.ReadNum
   requires d != nil && inv(d) && dest != nil
-  requires typeof(dest) == typeid(*int8) || typeof(dest) == typeid(*uint8) || typeof(dest) == typeid(*int16) || typeof(dest) == typeid(*uint16) || typeof(dest) == typeid(*int32) || typeof(dest) == typeid(*uint32) || typeof(dest) == typeid(*int64) || typeof(dest) == typeid(*uint64) || typeof(dest) == typeid(*float32) || typeof(dest) == typeid(*float64)
+  requires typeof(dest) == typeid(*int8) || typeof(dest) == typeid(*uint8) || typeof(dest) == typeid(*int16) || typeof(dest) == typeid(*uint16) || typeof(dest) == typeid(*int32) || typeof(dest) == typeid(*uint32) || typeof(dest) == typeid(*int64) || typeof(dest) == typeid(*uint64) || typeof(dest) == typeid(*float32) || typeof(dest) == typeid(*float64) || typeof(dest) == typeid(*bool)
+  -- a boolean is not a number: ReadNum refuses a *bool destination (it panics once it gets as far as storing) and never
+  -- consumes a byte for it - booleans are read by ReadBool, which accepts the canonical bytes 0 and 1 only
+  panics-iff d.err == nil && typeof(dest) == typeid(*bool) && len(d.src) - d.offset >= 1
   requires typeof(dest) == typeid(*int8) ==> unbox(*int8, dest) != nil
   requires typeof(dest) == typeid(*uint8) ==> unbox(*uint8, dest) != nil
   requires typeof(dest) == typeid(*int16) ==> unbox(*int16, dest) != nil
@@ -207,8 +210,9 @@ func Deserializer.ReadNum
   ensures d.offset != old(d.offset) && typeof(dest) == typeid(*int16) ==> d.offset == old(d.offset) + 2 && *unbox(*int16, dest) == (le16(elems(d.src), off(d.src) + old(d.offset)) >= 32768 ? le16(elems(d.src), off(d.src) + old(d.offset)) - 65536 : le16(elems(d.src), off(d.src) + old(d.offset)))
   ensures d.offset != old(d.offset) && typeof(dest) == typeid(*int32) ==> d.offset == old(d.offset) + 4 && *unbox(*int32, dest) == (le32(elems(d.src), off(d.src) + old(d.offset)) >= 2147483648 ? le32(elems(d.src), off(d.src) + old(d.offset)) - 4294967296 : le32(elems(d.src), off(d.src) + old(d.offset)))
   ensures d.offset != old(d.offset) && typeof(dest) == typeid(*int64) ==> d.offset == old(d.offset) + 8 && *unbox(*int64, dest) == (le64(elems(d.src), off(d.src) + old(d.offset)) >= 9223372036854775808 ? le64(elems(d.src), off(d.src) + old(d.offset)) - 18446744073709551616 : le64(elems(d.src), off(d.src) + old(d.offset)))
+  ensures typeof(dest) == typeid(*bool) ==> d.offset == old(d.offset)
   -- success direction
-  ensures old(d.err) == nil && len(d.src) - old(d.offset) >= ((typeof(dest) == typeid(*int8) || typeof(dest) == typeid(*uint8)) ? 1 : ((typeof(dest) == typeid(*int16) || typeof(dest) == typeid(*uint16)) ? 2 : ((typeof(dest) == typeid(*int32) || typeof(dest) == typeid(*uint32) || typeof(dest) == typeid(*float32)) ? 4 : 8))) ==> d.err == nil && d.offset != old(d.offset)
+  ensures old(d.err) == nil && typeof(dest) != typeid(*bool) && len(d.src) - old(d.offset) >= ((typeof(dest) == typeid(*int8) || typeof(dest) == typeid(*uint8)) ? 1 : ((typeof(dest) == typeid(*int16) || typeof(dest) == typeid(*uint16)) ? 2 : ((typeof(dest) == typeid(*int32) || typeof(dest) == typeid(*uint32) || typeof(dest) == typeid(*float32)) ? 4 : 8))) ==> d.err == nil && d.offset != old(d.offset)
   -- only the destination cell is written
   ensures forall p *int64 :: p != unbox(*int64, dest) ==> *p == old(*p)
   ensures forall p *float64 :: p != unbox(*float64, dest) ==> *p == old(*p)
